@@ -112,6 +112,8 @@ def specs(tier):
     add("get_tps_time_axis", [T], T + ".get_tps_time_axis", lambda: ([var("fr"), 6], {}, [z3.Real("fr") > 0]))
     TU = "turbulence.turb"
     add("phase_covariance", [TU], TU + ".phase_covariance", lambda: ([img((2, 2), "r"), var("r0"), var("L0")], {}, pos(img((2, 2), "r")) + [z3.Real("r0") > 0, z3.Real("L0") > 0]))
+    add("phase_covariance (float32 separations)", [TU], TU + ".phase_covariance", lambda: ([_f32arr(), var("r0"), var("L0")], {}, [z3.Real("r0") > 0, z3.Real("L0") > 0]),
+        light=True, concrete=lambda: ([numpy.array([[0, 0.5], [1, 2]], dtype=numpy.float32), 0.2, 25.0], {}))
     AS = "astronomy._astronomy"
     add("photons_per_band", [AS], AS + ".photons_per_band", lambda: ([var("mag"), img((2, 2), "m"), var("ps"), var("t")], {}, []))
     add("photons_per_mag", [AS], AS + ".photons_per_mag", lambda: ([var("mag"), img((2, 2), "m"), var("ps"), var("wb"), var("t")], {}, []))
@@ -138,6 +140,13 @@ def _symm(a):
     for i in range(a.shape[0]):
         for j in range(i + 1, a.shape[1]):
             a[i, j] = a[j, i]
+    return a
+
+
+def _f32arr():
+    """a concrete separation matrix that is ALREADY single precision (numpy.float32(a) is then `a` itself)"""
+    a = core.obj(numpy.array([[0, 0.5], [1, 2]], dtype=float))
+    a._is_f32 = True
     return a
 
 
